@@ -44,6 +44,22 @@ def exists(f, *bounds):
     return any(f(*c) for c in itertools.product(*rngs))
 
 
+def ratio_ok(xs, ys):
+    """exists k > 0 with x == k*y pointwise (exact, rationals)"""
+    from fractions import Fraction
+    k = None
+    for x, y in zip(xs, ys):
+        x, y = Fraction(float(x)), Fraction(float(y))
+        if (x == 0) != (y == 0):
+            return False
+        if x != 0:
+            q = x / y
+            if q <= 0 or (k is not None and q != k):
+                return False
+            k = q
+    return True
+
+
 class _Lazy(ast.NodeTransformer):
     """ite / implies / iff become lazy Python forms, so that the unused branch is never evaluated"""
 
@@ -76,7 +92,7 @@ class RtRegistry:
         self.by_key, self.by_name, self.specs, self.lemmas = {}, {}, {}, {}
         import math
         self.globals = {"forall": forall, "exists": exists, "len": len, "min": min, "max": max, "abs": abs,
-                        "isnan": math.isnan,
+                        "isnan": math.isnan, "ratio_ok": ratio_ok, "range": range,
                         "True": True, "False": False}
 
     def contract(self, *a, use_lemmas=(), **kw):
@@ -168,14 +184,20 @@ def check_once(reg, c, raw_args, variants=("compiled", "py_func")):
                 env[p] = c._owner.__new__(c._owner)         # a blank instance for methods / constructors
                 for key, fty in (c.fields or {}).items():
                     if key.startswith(p + "."):
-                        object.__setattr__(env[p], key.split(".", 1)[1], to_runtime(raw_args[key], fty))
+                        val_ = to_runtime(raw_args[key], fty)
+                        val_ = val_.tolist() if hasattr(val_, "tolist") else val_
+                        try:
+                            object.__setattr__(env[p], key.split(".", 1)[1], val_)
+                        except AttributeError:      # a read-only property backed by a private attribute
+                            object.__setattr__(env[p], "_" + key.split(".", 1)[1], val_)
+                        env[key] = val_
         snap = {id(v): copy.deepcopy(v) for v in env.values() if isinstance(v, (np.ndarray, list))}
         by_name_old = {p: snap[id(v)] for p, v in env.items() if id(v) in snap}
 
         def old(x, _snap=snap):
             return _snap.get(id(x), x)
         g = dict(reg.globals)
-        g.update(env)
+        g.update({k_: v_ for k_, v_ in env.items() if "." not in k_})
         g["old"] = old
         try:
             pre_ok = all(bool(eval(compile_expr(src), g)) for src in c.requires.values())
@@ -204,6 +226,8 @@ def check_once(reg, c, raw_args, variants=("compiled", "py_func")):
         for name, src in list(c.ensures.items()) + list(c.assumed.items()) + list(c.rt_only.items()):
             try:
                 ok = bool(eval(compile_expr(src), g))
+            except NameError:
+                continue            # the clause mentions a local of the function: not evaluable at run time
             except (IndexError, KeyError, ZeroDivisionError) as e:
                 ok = False
                 name = name + " (undefined: %r)" % (e,)
